@@ -67,6 +67,12 @@ _m = _ilu.module_from_spec(_sp); _sp.loader.exec_module(_m)
 UNITS.update(_m.UNITS_SNIPPET)
 HARNESSES += _m.HARNESSES_SNIPPET
 
+# ---- parallel_reduce with throwing user callbacks in stolen right children (package prepared by the C06 builder)
+_sp2 = _ilu.spec_from_file_location('reduce_throw_snippet', _os.path.join(_os.path.dirname(_os.path.abspath(__file__)), 'reduce_throw_spec_snippet.py'))
+_m2 = _ilu.module_from_spec(_sp2); _sp2.loader.exec_module(_m2)
+UNITS.update(_m2.UNITS_SNIPPET)
+HARNESSES += _m2.HARNESSES_SNIPPET
+
 MANIFEST = dict(
   level_text='Bounded symbolic execution of the real exception path of the scheduler in a one-thread world: the real task_dispatcher::local_wait_for_all loop with its catch(...) handler, '
              'task_group_context cancel_group_execution/reset/destroy, tbb_exception_ptr, execute_and_wait\'s rethrow, arena_slot spawn/get_task, r1::spawn/wait, get_thread_reference_vertex, and on top of it '
